@@ -22,6 +22,7 @@ CONFIG = {
         "registration judges the id as submitted; the other entry points read a submitted id as a C string (a lookup by \"qb\\0cd\" addresses \"qb\"): recorded (lookup_reads_c_string), not judged",
         "stored hashes come from GenPasswd (or are all-zero / never-verifying): CheckPasswd on a stored hash whose salt byte is >= 128 panics (C02 fcrypt_panics_iff) and is outside the model",
         "the in-memory guest/admin permission overlay of InitCurrentUser is not observable through the driven entry points; its guest test is tied by the regenerated text only (guest_test_source)",
-        "one caller at a time (concurrent registrations are property C15)",
+        "concurrency: proved only for read-only requests (concurrent_checks_schedule_free); for writers on different accounts the model runs the groups one after the other and every run compares the real concurrent execution with it (conc op) and judges it per account (P-hat keys conc:*); concurrent requests that write the SAME account, concurrent first logins (session-slot race) and",
+        "concurrent registrations (property C15) are outside; one caller at a time otherwise (concurrent registrations are property C15)",
     ],
 }
